@@ -535,16 +535,13 @@ func families() []*family {
 	var out []*family
 	by := map[string]*family{}
 	for _, g := range groups.All() {
-		key := g.Model
-		if key == "" || key == "qr512" {
+		key := g.Grp
+		if key == "" {
 			key = "~" + g.Name
 		}
 		f, ok := by[key]
 		if !ok {
-			f = &family{model: g.Model, q: g.Q}
-			if g.Model == "qr512" {
-				f.model = ""
-			}
+			f = &family{model: g.Grp, q: g.Q}
 			by[key] = f
 			out = append(out, f)
 		}
